@@ -13,7 +13,7 @@ from nv.framework import Check, pmap, sha, harness_fail
 from nv import loader, progs, conform, cbuild, universe as U, bisim
 from nv.am import AM, Malformed
 
-VARIANTS = [[], ["-findirect-start-ptr"]]
+VARIANTS = [[], ["-findirect-start-ptr"], ["-O3", "-findirect-start-ptr"]]
 
 
 def pick_reps(am, stmts, maxn):
@@ -106,10 +106,13 @@ def programs(tier, seed):
         uni = progs.universe_slice(2, step=211, offset=seed) + progs.universe_slice(1, step=5, offset=seed)
     else:
         uni = progs.universe_slice(2, step=9, offset=seed) + progs.universe_slice(1, step=1)
+    hw = [progs.from_ast(tuple(p), "HW#%d" % j) for j, p in enumerate(U.handwritten())]
+    for p in hw:
+        p["ast"] = None     # run them under every variant like the corpus
     items = []
-    for i, p in enumerate(base + yl + uni):
-        for v in (VARIANTS if (tier == "thorough" or p["ast"] is None) else [VARIANTS[(i + seed) % 2]]):
-            items.append(dict(label=p["label"], src=p["src"], argv=p["argv"] + v, ast=p.get("ast"), L=L, maxreps=maxreps))
+    for i, p in enumerate(base + yl + hw + uni):
+        for v in (VARIANTS if (tier == "thorough" or p["ast"] is None) else [VARIANTS[(i + seed) % 3]]):
+            items.append(dict(label=p["label"], src=p["src"], argv=p["argv"] + [f for f in v if f not in p["argv"]], ast=p.get("ast"), L=L, maxreps=maxreps))
     return items
 
 
